@@ -433,3 +433,8 @@ Definition accessor_fields_ok (fl : ctor_flags) (sd : sdecl) : bool :=
 Definition c03_guard (pkg : pkg_spec) (fl : ctor_flags) (fuel : nat) (sd : sdecl) : bool :=
   c02_guard pkg fuel sd && no_excluded_fields sd && own_names_fresh pkg fuel sd &&
   embedded_names_fresh pkg fuel sd && accessor_fields_ok fl sd.
+
+(* the type the template prints for a field of the struct itself (TypeMap): qualifiedName strips the
+   leading stars of the printed type and remembers whether there was one *)
+Definition star_of_ty (t : ty) : string :=
+  let '(qn, isptr) := qualified_name t in (if isptr then "*" else "") ++ qn.
